@@ -113,6 +113,7 @@ func (ex *Exec) load(st *State, p Value) Value {
 	as := alts(p)
 	var r Value
 	first := true
+	sawEmpty := false
 	for i := len(as) - 1; i >= 0; i-- {
 		a := as[i]
 		pc := a.V.(*PtrC)
@@ -123,7 +124,11 @@ func (ex *Exec) load(st *State, p Value) Value {
 		if !ok {
 			continue
 		}
-		v := loadPath(ov, pc.Path)
+		v, okv := tryLoadPath(ov, pc.Path)
+		if !okv {
+			sawEmpty = true
+			continue // element of a zero-length array: this alternative's bounds check already failed
+		}
 		if first {
 			r = v
 			first = false
@@ -132,6 +137,9 @@ func (ex *Exec) load(st *State, p Value) Value {
 		}
 	}
 	if first {
+		if sawEmpty {
+			panic(errEmptyIndex)
+		}
 		panic(unsupported("load through nil-only pointer"))
 	}
 	return r
@@ -707,4 +715,17 @@ func (ex *Exec) mapLen(st *State, m *MapVal) *Term {
 		n = Add(n, Ite(p, i64(1), i64(0)))
 	}
 	return n
+}
+
+func tryLoadPath(v Value, path []PathEl) (r Value, ok bool) {
+	defer func() {
+		if e := recover(); e != nil {
+			if e == errEmptyIndex {
+				r, ok = nil, false
+				return
+			}
+			panic(e)
+		}
+	}()
+	return loadPath(v, path), true
 }
